@@ -1,0 +1,24 @@
+//go:build verif
+
+package mjml
+
+import "github.com/preslavrachev/gomjml/mjml/options"
+
+// Exports for the verification harness.
+
+func VerifNormalizeGroupColumnClassOrder(s string) string { return normalizeGroupColumnClassOrder(s) }
+
+// VerifParseInlineCSS returns (class, declarations) for every simple class rule of an inline style sheet.
+func VerifParseInlineCSS(css string) ([]string, [][]options.InlineStyle) {
+	var names []string
+	var decls [][]options.InlineStyle
+	for _, r := range parseInlineCSSRules(css) {
+		for _, sel := range r.selectors {
+			if c, ok := extractInlineClass(sel); ok {
+				names = append(names, c)
+				decls = append(decls, r.declarations)
+			}
+		}
+	}
+	return names, decls
+}
